@@ -1325,6 +1325,8 @@ class Ctx:
         """square-free factorisation in the sub-ring of the gens that occur (sympy's sqf_list goes
         through a dense representation, hopeless in the pooled ring); skipped for large radicands"""
         used = sorted({i for m in P for i, e in enumerate(m) if e})
+        if not used:
+            return (P.LC if P else QQ(0)), []
         if len(P) > 600 or len(used) > 12 or max(sum(m) for m in P) > 8:
             return QQ(1), [(P, 1)]
         from sympy.polys.rings import PolyRing
